@@ -53,12 +53,28 @@ var (
 	allowed = map[string]bool{"n": true, "f": true}
 )
 
+// A world is a context together with what the statement's rule needs to know about it: which
+// top-level names it allows. baseWorld is the one context of the main families.
+type world struct {
+	name    string // the allowed top-level names, as written in signatures
+	ctx     *types.XObject
+	allowed map[string]bool
+}
+
+var baseWorld = &world{"n,f", baseCtx, allowed}
+
 func isNameChar(ch rune) bool { return unicode.IsLetter(ch) || unicode.IsNumber(ch) || ch == '_' }
 
 // evalTemplate is the observation: Evaluator.Template on the real implementation.
 func evalTemplate(ctx *types.XObject, t string) (out string, failed bool, panicked string) {
+	return evalTemplateWith(evalr, ctx, t)
+}
+
+// evalTemplateWith is the same observation on a given Evaluator (the families that reuse one
+// Evaluator across contexts make their own).
+func evalTemplateWith(ev *excellent.Evaluator, ctx *types.XObject, t string) (out string, failed bool, panicked string) {
 	var err error
-	panicked = mc.Guard(func() { out, _, err = evalr.Template(env, ctx, t, nil) })
+	panicked = mc.Guard(func() { out, _, err = ev.Template(env, ctx, t, nil) })
 	return out, err != nil, panicked
 }
 
@@ -115,6 +131,12 @@ type refSegment struct {
 // and all other text is literal. exact is false when the template has an `@(` that is never closed:
 // the statement does not say what such text means, so only the output before it is specified.
 func refTemplate(ctx *types.XObject, t string) (out string, exact bool, exprs []refSegment) {
+	return refTemplateIn(&world{"n,f", ctx, allowed}, t)
+}
+
+// refTemplateIn is the statement's rule in a given world (context + its allowed top-level names).
+func refTemplateIn(w *world, t string) (out string, exact bool, exprs []refSegment) {
+	ctx, allowed := w.ctx, w.allowed
 	r := []rune(t)
 	var sb strings.Builder
 	for i := 0; i < len(r); {
@@ -215,15 +237,9 @@ type failure struct {
 // checkBody checks template text t (clause 1 of the statement and the scanner/parser agreement).
 func checkBody(t string) *failure {
 	out, _, pn := evalTemplate(baseCtx, t)
-	if pn != "" {
-		return &failure{"panic:" + mc.PanicSite(pn), fmt.Sprintf("Evaluator.Template(%q) panics: %s", t, pn)}
-	}
 	want, exact, _ := refTemplate(baseCtx, t)
-	if exact && out != want {
-		return &failure{"wrong-output", fmt.Sprintf("template %q evaluates to %q, the statement's rule gives %q", t, out, want)}
-	}
-	if !exact && !strings.HasPrefix(out, want) {
-		return &failure{"wrong-output-before-unclosed-expression", fmt.Sprintf("template %q evaluates to %q, the statement's rule gives %q before the unclosed `@(`", t, out, want)}
+	if f := judgeText(t, out, pn, want, exact); f != nil {
+		return f
 	}
 	if strings.Contains(t, "@(") {
 		for _, tok := range scan(t) {
@@ -237,11 +253,28 @@ func checkBody(t string) *failure {
 	return nil
 }
 
+// judgeText compares what Evaluator.Template gave for template text t (out, or the panic pn) with
+// the statement's rule (want; exact is false when only the output before an unclosed `@(` is specified).
+func judgeText(t, out, pn, want string, exact bool) *failure {
+	if pn != "" {
+		return &failure{"panic:" + mc.PanicSite(pn), fmt.Sprintf("Evaluator.Template(%q) panics: %s", t, pn)}
+	}
+	if exact && out != want {
+		return &failure{"wrong-output", fmt.Sprintf("template %q evaluates to %q, the statement's rule gives %q", t, out, want)}
+	}
+	if !exact && !strings.HasPrefix(out, want) {
+		return &failure{"wrong-output-before-unclosed-expression", fmt.Sprintf("template %q evaluates to %q, the statement's rule gives %q before the unclosed `@(`", t, out, want)}
+	}
+	return nil
+}
+
 // ---- string literals ------------------------------------------------------------------------------
 
 type form struct {
 	name string
 	pair bool
+	// value: the template is evaluated for its value (Evaluator.TemplateValue) instead of its text
+	value bool
 	// build returns the template, the expected output and the tokens the scanner should cut
 	build func(q, t2, s, t string) (tpl, want string, toks []scanTok)
 }
@@ -253,29 +286,30 @@ func id(s string) scanTok {
 }
 
 var forms = []form{
-	{"@(Q)", false, func(q, _, s, _ string) (string, string, []scanTok) { return "@(" + q + ")", s, []scanTok{x(q)} }},
-	{"x @(Q) y", false, func(q, _, s, _ string) (string, string, []scanTok) {
+	{"@(Q)", false, false, func(q, _, s, _ string) (string, string, []scanTok) { return "@(" + q + ")", s, []scanTok{x(q)} }},
+	{"value of @(Q)", false, true, func(q, _, s, _ string) (string, string, []scanTok) { return "@(" + q + ")", s, []scanTok{x(q)} }},
+	{"x @(Q) y", false, false, func(q, _, s, _ string) (string, string, []scanTok) {
 		return "x @(" + q + ") y", "x " + s + " y", []scanTok{b("x "), x(q), b(" y")}
 	}},
-	{"@n@(Q)@n", false, func(q, _, s, _ string) (string, string, []scanTok) {
+	{"@n@(Q)@n", false, false, func(q, _, s, _ string) (string, string, []scanTok) {
 		return "@n@(" + q + ")@n", valA + s + valA, []scanTok{id("n"), x(q), id("n")}
 	}},
-	{"@(Q)@(Q)", false, func(q, _, s, _ string) (string, string, []scanTok) {
+	{"@(Q)@(Q)", false, false, func(q, _, s, _ string) (string, string, []scanTok) {
 		return "@(" + q + ")@(" + q + ")", s + s, []scanTok{x(q), x(q)}
 	}},
-	{"@(f(Q))", false, func(q, _, s, _ string) (string, string, []scanTok) {
+	{"@(f(Q))", false, false, func(q, _, s, _ string) (string, string, []scanTok) {
 		return "@(f(" + q + "))", "[" + s + "]", []scanTok{x("f(" + q + ")")}
 	}},
-	{"@(o[Q])", false, func(q, _, s, _ string) (string, string, []scanTok) {
+	{"@(o[Q])", false, false, func(q, _, s, _ string) (string, string, []scanTok) {
 		return "@(o[" + q + "])", "<V>", []scanTok{x("o[" + q + "]")}
 	}},
-	{"@(Q & T)", true, func(q, t2, s, t string) (string, string, []scanTok) {
+	{"@(Q & T)", true, false, func(q, t2, s, t string) (string, string, []scanTok) {
 		return "@(" + q + " & " + t2 + ")", s + t, []scanTok{x(q + " & " + t2)}
 	}},
-	{"@(Q = T)", true, func(q, t2, s, t string) (string, string, []scanTok) {
+	{"@(Q = T)", true, false, func(q, t2, s, t string) (string, string, []scanTok) {
 		return "@(" + q + " = " + t2 + ")", strconv.FormatBool(s == t), []scanTok{x(q + " = " + t2)}
 	}},
-	{"@(f(Q, T))", true, func(q, t2, s, t string) (string, string, []scanTok) {
+	{"@(f(Q, T))", true, false, func(q, t2, s, t string) (string, string, []scanTok) {
 		return "@(f(" + q + ", " + t2 + "))", "[" + s + "|" + t + "]", []scanTok{x("f(" + q + ", " + t2 + ")")}
 	}},
 }
@@ -304,9 +338,25 @@ func ctxFor(f *form, s string) *types.XObject {
 func checkLiteral(f *form, s, t string) *failure {
 	q, t2 := strconv.Quote(s), strconv.Quote(t)
 	tpl, want, toks := f.build(q, t2, s, t)
-	out, failed, pn := evalTemplate(ctxFor(f, s), tpl)
+	var out, pn string
+	var failed bool
+	if f.value {
+		// the value must be a text (not an error, not another type) and that text is compared
+		var v types.XValue
+		var err error
+		pn = mc.Guard(func() { v, _, err = evalr.TemplateValue(env, ctxFor(f, s), tpl) })
+		if txt, isText := v.(*types.XText); isText {
+			out, failed = txt.Native(), err != nil
+		} else if pn == "" && v == nil {
+			out, failed = "<no value>", true
+		} else if pn == "" {
+			out, failed = fmt.Sprintf("<%T %s>", v, types.Render(v)), true
+		}
+	} else {
+		out, failed, pn = evalTemplate(ctxFor(f, s), tpl)
+	}
 	if pn != "" {
-		return &failure{"panic:" + mc.PanicSite(pn), fmt.Sprintf("Evaluator.Template(%q) panics: %s", tpl, pn)}
+		return &failure{"panic:" + mc.PanicSite(pn), fmt.Sprintf("evaluating %q (form %s) panics: %s", tpl, f.name, pn)}
 	}
 	if out == want && !failed {
 		return nil
